@@ -116,6 +116,17 @@ where
         Reveal<MacUpgraded<C, Fp25519>, Output = <RP25519 as Vectorizable<PRF_CHUNK>>::Array>,
     PrfHybridReport<BK, V>: Serializable,
 {
+    if input_rows.is_empty() {
+        // Nothing to evaluate on this shard, but the other shards still send it their
+        // reports and wait for its channels to be closed.
+        return reshard_try_stream(
+            ctx.narrow(&HybridStep::ReshardByPrf),
+            stream::empty::<Result<PrfHybridReport<BK, V>, Error>>(),
+            |ctx, _, report| report.match_key % ctx.shard_count(),
+        )
+        .await;
+    }
+
     let conv_records =
         TotalRecords::specified(div_round_up(input_rows.len(), Const::<CONV_CHUNK>))?;
     let eval_records = TotalRecords::specified(div_round_up(input_rows.len(), Const::<PRF_CHUNK>))?;
